@@ -4,6 +4,7 @@ import (
 	"fmt"
 
 	"github.com/free5gc/chf/internal/verifsim/rt"
+	"github.com/free5gc/chf/internal/verifsim/simnet"
 )
 
 // Generators: one integer (the seed) decides the whole scenario.  Swarm style: each
@@ -118,8 +119,34 @@ func (g *gen) reqVol(cost int64) int32 {
 
 // ---------------------------------------------------------------- C01
 
+// genC01Parallel: every subscriber's history runs as its own task, all at the same time.
+// Histories of different subscribers share nothing but the servers, so each account must
+// still satisfy the identity once everything has completed.
+func genC01Parallel(g *gen) *Scenario {
+	g.sc.Cfg.Concurrent = true
+	g.sc.Cfg.MaxLatNs = []int64{300_000, 5_000_000}[g.r.Intn(2)]
+	nSub := 2 + g.r.Intn(3)
+	subs := g.accounts(nSub, 2, func() int64 { return g.r.Range(1000, 5_000_000) })
+	for s := 1; s <= nSub; s++ {
+		st := &sessState{name: fmt.Sprintf("p%d", s), supi: supiN(s), rgs: subs[supiN(s)]}
+		ops := []Op{{ID: g.id(), Kind: "create", Supi: st.supi, Sess: st.name, Consumer: "smf", ChargingID: int32(s), NotifyURI: "http://smf.sim/notify/" + st.supi}}
+		for i, n := 0, 2+g.r.Intn(8); i < n; i++ {
+			ops = append(ops, g.usageOp("update", st, g.r.Chance(150), false, false, false))
+		}
+		if g.r.Chance(500) {
+			ops = append(ops, g.usageOp("release", st, true, false, false, false))
+		}
+		g.sc.Tasks = append(g.sc.Tasks, Task{ID: s, StartNs: g.r.Range(0, 20_000_000), Ops: ops})
+	}
+	g.sc.Shape = fmt.Sprintf("parallel subs=%d", nSub)
+	return g.sc
+}
+
 func GenC01(seed uint64) *Scenario {
 	g := newGen("C01", seed)
+	if g.r.Chance(120) {
+		return genC01Parallel(g)
+	}
 	g.sc.Cfg.TZOffsetSec = zoneOffsets[g.r.Intn(len(zoneOffsets))]
 	nSub := 1 + g.r.Intn(3)
 	quotaClass := g.r.Intn(4)
@@ -273,7 +300,12 @@ func GenC06(seed uint64) *Scenario {
 	}
 	allowRecharge := g.r.Chance(400)
 	allowFinal := g.r.Chance(500)
-	g.sc.Shape = fmt.Sprintf("subs=%d vol=%d varying=%v bal=%d recharge=%v final=%v", nSub, vol, varying, balClass, allowRecharge, allowFinal)
+	// No peer outage is generated: C06 quantifies over histories and inputs, not over fault
+	// sequences.  (Tried and withdrawn: with an account server that misses one exchange the
+	// conservation-based bound of the oracle no longer holds, and the unchanged tree itself
+	// over-grants after a failed debit-mode settlement - outside what C06 states.)
+	outage := false
+	g.sc.Shape = fmt.Sprintf("subs=%d vol=%d varying=%v bal=%d recharge=%v final=%v outage=%v", nSub, vol, varying, balClass, allowRecharge, allowFinal, outage)
 	var ops []Op
 	for s := 1; s <= nSub; s++ {
 		ops = append(ops, Op{ID: g.id(), Kind: "create", Supi: supiN(s), Sess: fmt.Sprintf("s%d", s), Consumer: "smf", ChargingID: int32(s),
@@ -313,6 +345,14 @@ func GenC06(seed uint64) *Scenario {
 		if len(op.Units) == 0 {
 			rg := subs[supi][0]
 			op.Units = []Unit{{RG: rg, Req: vol, Containers: []Container{g.online(1000)}}}
+		}
+		if outage && g.r.Chance(120) {
+			// the account server is unreachable / silent for one exchange of this update
+			f := simnet.Fault{Peer: "abmf", Task: 0, Op: op.ID, Dir: []string{"dial", "req", "ans"}[g.r.Intn(3)], Cmd: 272, Nth: 0, Kind: simnet.KDrop}
+			if f.Dir == "dial" {
+				f.Kind, f.Cmd = simnet.KRefuse, 0
+			}
+			g.sc.Faults = append(g.sc.Faults, f)
 		}
 		ops = append(ops, op)
 	}
@@ -365,6 +405,15 @@ func GenC02(seed uint64) *Scenario {
 		case !s.created:
 			op := Op{ID: g.id(), Kind: "create", Supi: s.supi, Sess: s.name, Consumer: []string{"smf1", "smf-a", "SMF", "", "x"}[g.r.Intn(5)],
 				ChargingID: int32(g.r.Range(0, 100000)), NotifyURI: "http://smf.sim/notify/" + s.supi}
+			if g.r.Chance(500) {
+				op.ConsumerV4 = []string{"10.0.0.8", "192.168.1.250"}[g.r.Intn(2)]
+			}
+			if g.r.Chance(400) {
+				op.ConsumerV6 = []string{"2001:db8::8", "fe80::1"}[g.r.Intn(2)]
+			}
+			if g.r.Chance(300) {
+				op.ConsumerFqdn = "smf.example.org"
+			}
 			if allowCreateUsage && g.r.Chance(400) {
 				op.Units = []Unit{{RG: s.rgs[0], Req: 100, Containers: []Container{g.offline()}}}
 			}
@@ -421,7 +470,7 @@ func GenC03(seed uint64) *Scenario {
 	g := newGen("C03", seed)
 	g.sc.Cfg.MaxLatNs = 300_000
 	subs := g.accounts(1+g.r.Intn(2), 2, func() int64 { return 3_000_000_000 })
-	shape := g.r.Intn(6)
+	shape := g.r.Intn(7)
 	g.sc.Shape = fmt.Sprintf("shape=%d", shape)
 	var ops []Op
 	s := &sessState{name: "s1", supi: supiN(1), rgs: subs[supiN(1)]}
@@ -455,6 +504,26 @@ func GenC03(seed uint64) *Scenario {
 			create.Units[0].Containers = append(create.Units[0].Containers, g.offline())
 		}
 		ops = append(ops, create, mk("update", 1+g.r.Intn(500), false), mk("release", 1, true))
+	case 6: // several tasks send fat updates for the same session at the same time
+		g.sc.Cfg.Concurrent = true
+		g.sc.Cfg.MaxLatNs = 2_000_000
+		g.sc.Cfg.YieldPermille = []int{0, 50, 300}[g.r.Intn(3)]
+		g.sc.Cfg.YieldMaxNs = 1_000_000
+		pre := []Op{create, mk("update", 1200+g.r.Intn(300), false)}
+		g.sc.Tasks = []Task{{ID: 0, Ops: pre}}
+		nT := 2 + g.r.Intn(2)
+		for t := 1; t <= nT; t++ {
+			var tops []Op
+			for k := 0; k < 1+g.r.Intn(3); k++ {
+				o := mk("update", 900+g.r.Intn(400), false)
+				// an online container makes the update talk to the rating server while it holds (or should hold) the subscriber
+				o.Units[0].Containers[0] = Container{QMI: "ONLINE_CHARGING", UsePermille: -1, Vol: 1}
+				tops = append(tops, o)
+			}
+			g.sc.Tasks = append(g.sc.Tasks, Task{ID: t, StartNs: 100_000_000 + g.r.Range(0, 3_000_000), Ops: tops})
+		}
+		g.sc.Shape = fmt.Sprintf("shape=6 concurrent tasks=%d", nT)
+		return g.sc
 	case 5: // boundary walk: fill the record to just below the limit, then cross it in very small steps
 		ops = append(ops, create)
 		fill := 2700 + g.r.Intn(150)
@@ -559,6 +628,9 @@ func GenC12(seed uint64) *Scenario {
 			default:
 				op.RefMode = "literal:" + []string{"0", "x", s.supi, s.supi + "smf", "imsi-", "%20"}[g.r.Intn(6)]
 			}
+			if g.r.Chance(400) {
+				op.NotifyURI = "http://smf.sim/notify/other-endpoint" // a rejected request must not re-register the endpoint either
+			}
 			ops = append(ops, op)
 			continue
 		}
@@ -588,6 +660,9 @@ func GenC12(seed uint64) *Scenario {
 			kind := []string{"update", "release"}[g.r.Intn(2)]
 			op := g.usageOp(kind, s, kind == "release", false, true, false)
 			op.RefMode = "stale"
+			if g.r.Chance(400) {
+				op.NotifyURI = "http://smf.sim/notify/other-endpoint"
+			}
 			ops = append(ops, op)
 		default:
 			if g.r.Chance(300) {
